@@ -8,7 +8,7 @@ from . import common, cons, hand, hist, place, universe, xt
 
 PID = "C09"
 DESTS = ["same", "other", "ctx", "ctx-default", "kind", "same:view", "other:view"]  # ":view" = the source is a view rebuilt from (buffer, offset)
-VMODES = ["ramp", "null", "extreme"]
+VMODES = ["ramp", "null", "extreme", "emptyref"]
 
 
 def describe(tier):
